@@ -341,6 +341,67 @@ func RunLoadPreparsed(L *Layout, fs *zsimrt.FS) (first, second *Outcome, ok bool
 	return first, second, true
 }
 
+// RunLoadCliTwice: one cli.ProjectOptions value, LoadProject called twice on it.
+func RunLoadCliTwice(L *Layout, fs *zsimrt.FS) (first, second *Outcome, ok bool) {
+	r := zsimrt.Current()
+	if r != nil {
+		r.FS = fs
+	}
+	calls := 0
+	stub := stubLoader{L: L, fs: fs, calls: &calls}
+	opts := []cli.ProjectOptionsFn{cli.WithWorkingDirectory(L.WorkingDir), cli.WithOsEnv, cli.WithEnv(envList(L.Env)), cli.WithEnvFiles(L.CliEnvFiles...), cli.WithDotEnv,
+		cli.WithConfigFileEnv, cli.WithDefaultConfigPath, cli.WithResourceLoader(stub), cli.WithLoadOptions(loadOptions(L)...)}
+	if L.Opts.ProjectName != "" && L.Opts.NameImperative {
+		opts = append(opts, cli.WithName(L.Opts.ProjectName))
+	}
+	if L.CliProfilesFromEnv {
+		opts = append(opts, cli.WithDefaultProfiles())
+	}
+	var po *cli.ProjectOptions
+	var perr error
+	func() {
+		defer func() {
+			if v := recover(); v != nil {
+				perr = fmt.Errorf("panic: %v", v)
+			}
+		}()
+		po, perr = cli.NewProjectOptions(L.Main, opts...)
+	}()
+	if perr != nil || po == nil {
+		return nil, nil, false
+	}
+	one := func() (out *Outcome) {
+		out = &Outcome{}
+		if r != nil {
+			r.ResetCounters()
+		}
+		defer func() {
+			if v := recover(); v != nil {
+				if b, isBudget := v.(zsimrt.BudgetExceeded); isBudget {
+					out.Budget = b.Error()
+					return
+				}
+				buf := make([]byte, 16384)
+				buf = buf[:runtime.Stack(buf, false)]
+				out.Panic, out.Stack = msgClass(v), string(buf)
+				out.PanicAt = composeFrame(out.Stack)
+			}
+		}()
+		proj, err := po.LoadProject(context.Background())
+		if err != nil {
+			out.Err = err.Error()
+			return out
+		}
+		out.OK, out.Project = true, proj
+		out.YAML, _ = proj.MarshalYAML()
+		out.JSON, _ = proj.MarshalJSON()
+		return out
+	}
+	first = one()
+	second = one()
+	return first, second, true
+}
+
 func envList(m map[string]string) []string {
 	ks := make([]string, 0, len(m))
 	for k := range m {
